@@ -2409,3 +2409,85 @@ def m_fixed_offset(ex, m, args, callee):
     if ex.branch(okc, 'offset within +-24h'):
         return some(ex, Struct('FixedOffset', [s if m.group(1) == 'east_opt' else n_neg(s)]))
     return none(ex)
+
+
+# ============================================================================= atomics / allocator surface (alloc.rs)
+
+def _yield(ex, what):
+    sched = ex.env.get('sched')
+    if sched is not None:
+        sched.yield_point(what)
+
+
+@model(r'^Atomic::new$|^AtomicUsize::new$')
+def m_atomic_new(ex, m, args, callee):
+    return Struct('Atomic', [args[0]])
+
+
+@model(r'^(Atomic|AtomicUsize)::(load|store|fetch_add|fetch_sub|fetch_max|fetch_min|swap)$')
+def m_atomic_op(ex, m, args, callee):
+    k = m.group(2)
+    _yield(ex, k)
+    r = innermost_ref(args[0])
+    a = load(r)
+    old = a.fields[0]
+    if k == 'load':
+        return old
+    v = args[1]
+    if k == 'store':
+        a.fields[0] = v
+        return Tup([])
+    if k == 'swap':
+        a.fields[0] = v
+        return old
+    def wrap_usize(x):
+        if is_conc(x):
+            return wrap_int(x, 'usize')
+        okr = in_range(x, 'usize')
+        return x if okr is True else b_ite(okr, x, wrap_int(x, 'usize'))
+    if k == 'fetch_add':
+        a.fields[0] = wrap_usize(n_add(old, v))
+    elif k == 'fetch_sub':
+        a.fields[0] = wrap_usize(n_sub(old, v))
+    elif k == 'fetch_max':
+        c = n_ge(old, v)
+        a.fields[0] = (old if c else v) if isinstance(c, bool) else b_ite(c, old, v)
+    elif k == 'fetch_min':
+        c = n_le(old, v)
+        a.fields[0] = (old if c else v) if isinstance(c, bool) else b_ite(c, old, v)
+    return old
+
+
+@model(r'^Layout::(size|align|from_size_align_unchecked|from_size_align)$')
+def m_layout(ex, m, args, callee):
+    k = m.group(1)
+    if k == 'from_size_align_unchecked':
+        return Struct('Layout', [args[0], args[1]])
+    if k == 'from_size_align':
+        return ok(Struct('Layout', [args[0], args[1]]))
+    l = val(args[0])
+    return l.fields[0] if k == 'size' else l.fields[1]
+
+
+@model(r'^<System as GlobalAlloc>::(alloc|alloc_zeroed|realloc|dealloc)$')
+def m_system_alloc(ex, m, args, callee):
+    k = m.group(1)
+    _yield(ex, 'System::' + k)
+    if k == 'dealloc':
+        return Tup([])
+    # the parent allocator may fail: nondeterministic null / fresh non-null block
+    if ex.choose(2, 'System::%s fails?' % k) == 1:
+        return Struct('Ptr', [0])
+    ex.nfresh += 1
+    return Struct('Ptr', [ex.nfresh + 1000])
+
+
+@model(r'^null_mut$|^null$')
+def m_null(ex, m, args, callee):
+    return Struct('Ptr', [0])
+
+
+@model(r'^<impl \*(mut|const) \w+>::is_null$')
+def m_is_null(ex, m, args, callee):
+    p = val(args[0])
+    return p.fields[0] == 0
